@@ -212,8 +212,14 @@ def finish(res: Result, min_nontrivial: int = 2) -> int:
         print(f'KNOWN-FINDING: property={res.prop} {fid}: {f.get("what", "")} ({n} witnesses this run)')
 
     replay_paths = []
+    d = REPLAY_DIR / res.prop
+    if d.exists():
+        for old in d.glob(f'{res.tier}-seed{res.seed}-*.json'):
+            try:
+                old.unlink()
+            except OSError:
+                pass
     if new_violations:
-        d = REPLAY_DIR / res.prop
         d.mkdir(parents=True, exist_ok=True)
         for i, w in enumerate(new_violations[:20]):
             p = d / f'{res.tier}-seed{res.seed}-{i}.json'
